@@ -1,1 +1,3 @@
 pub mod api;
+pub mod edits;
+pub mod lsp;
